@@ -151,6 +151,18 @@ class XClient(Client):
             self.script_bytes = apply_h2_script(self.h2, list(script))
             self.h2.pending.clear()
 
+    def _h2c_feed(self, data: bytes, t: float) -> None:
+        first = not self._h2c_started
+        super()._h2c_feed(b"", t) if first else None
+        if first:
+            # the h2 client library learns a stream's request method from its own send_headers(); stream 1 of
+            # an upgraded connection never had one, so tell it (it matters for HEAD: no body is expected)
+            st = self.h2.conn.streams.get(1)
+            methods = self.opts.get("methods")
+            if st is not None and methods:
+                st.request_method = bytes(methods[0])
+        self.h2.feed(data, t)
+
     def command(self, ev: tuple) -> bytes:
         name, args = ev[2], tuple(ev[3:])
         if name == "ackn":  # acknowledge at most n of the received-but-unacknowledged bytes of a stream
